@@ -150,8 +150,8 @@ package syntax
 //@   pure
 //@   requires b != nil && len(b.pattern) > 0 && beglimit == 0 && endlimit == len(text) && 0 <= index && index <= len(text)
 //@   ensures r == -1 || (0 <= r && r <= len(text) && BmAt(b, text, r))
-//@   ensures !b.rightToLeft ==> (r == -1 || index <= r) && forall p int :: index <= p && (r == -1 || p < r) ==> !BmAt(b, text, p)
-//@   ensures b.rightToLeft ==> (r == -1 || r <= index) && forall p int :: p <= index && (r == -1 || p > r) ==> !BmAt(b, text, p)
+//@   ensures !b.rightToLeft ==> (r == -1 || index <= r) && forall p int {mark(p)} :: index <= p && (r == -1 || p < r) ==> !BmAt(b, text, p)
+//@   ensures b.rightToLeft ==> (r == -1 || r <= index) && forall p int {mark(p)} :: p <= index && (r == -1 || p > r) ==> !BmAt(b, text, p)
 
 // ---------------------------------------------------------------------------------------------
 // C19: Escape / Unescape (escape.go, parser.go)
@@ -341,7 +341,7 @@ package syntax
 //@   requires c != nil
 //@   modifies c.anything, c.categories, c.ranges
 //@   ensures c.anything && len(c.categories) == 0 && len(c.ranges) == 1 && c.ranges[0].First == 0 && c.ranges[0].Last == 1114111 && fresh(c.ranges) && c.negate == old(c.negate) && c.sub == old(c.sub)
-//@   ensures[everything] forall ch rune :: ValidRune(ch) ==> Inner(*c, ch)
+//@   ensures[everything] forall ch rune :: ValidRune(ch) ==> mark(0) && Inner(*c, ch)
 
 //@ func (c *CharSet) addSubtraction(sub *CharSet)
 //@   props C16
